@@ -75,8 +75,8 @@ SLICE_DONORS = {
     'MatchClass.patterns': ('a, b', '1,'),
     'Dict._all': ('{a: b}', '{a: b, **c}', 'a: b, c: d', '{}'),
     'MatchMapping._all': ('{1: a}', '{1: a, 2: b}', '{}'),
-    'BoolOp.values': ('a and b', 'a or b', 'x'),
-    'Compare._all': ('a < b', 'x', 'a is not b == c'),
+    'BoolOp.values': ('a and b', 'a or b', 'x', 'lambda: x', 'not a', 'p if q else r', '*s', '(y := 1)', 'a < b'),
+    'Compare._all': ('a < b', 'x', 'a is not b == c', 'lambda: x', 'not a', 'a or b', '*s', 'p if q else r'),
     'arguments._all': ('a', 'a, b=1', '*, k', '', '**kw', 'x, /', '*v', 'p=1', 'q, /, r'),
     'Call._args': ('a', 'a, k=v', 'k=v, **kw', '', '*s', '**d'),
     'ClassDef._bases': ('A', 'A, m=M', '', '*bs', '**kw'),
